@@ -674,7 +674,25 @@ def _np_atleast_2d(interp, args, kwargs):
     raise OutOfSubset("np.atleast_2d of %r" % (a,))
 
 
+def _np_roll(interp, args, kwargs):
+    a, shift = args[0], args[1]
+    axis = kwargs.get("axis", args[2] if len(args) > 2 else None)
+    if not isinstance(a, NdArr) or axis not in (0, 1) or a.ndim < 2:
+        raise OutOfSubset("np.roll form")
+    f = snapshot_fn(a)
+    n = z3num(a.shape[axis])
+    sh = z3num(shift)
+
+    def at(idx):
+        idx = list(idx)
+        idx[axis] = simp((z3num(idx[axis]) - sh) % n)
+        return f(tuple(idx))
+
+    return NdArr(a.shape, a.dtype, at, a.label + ".roll")
+
+
 NP_FUNCS = {
+    "np.roll": _np_roll,
     "np.empty": _np_empty,
     "np.isnan": _np_isnan,
     "np.all": _np_all_any("all"),
